@@ -43,6 +43,8 @@ func genWorkload(p wlParams) *rapid.Generator[Case] {
 				c.Steps = append(c.Steps, Step{K: "reopen"})
 			case r < p.ReopenPct+p.MergePct:
 				c.Steps = append(c.Steps, Step{K: "merge"})
+			case structs && rapid.IntRange(0, 11).Draw(t, "noopatcommit") == 7:
+				c.Steps = append(c.Steps, genNoopAtCommit(t, buckets[0], i)...)
 			default:
 				nops := rapid.IntRange(1, 5).Draw(t, "nops")
 				st := Step{K: "tx", Managed: rapid.Bool().Draw(t, "managed")}
